@@ -164,13 +164,17 @@ func getStartCodePositions(stream []byte) (scNalus []scNalu, minStartCodeLength 
 // ConvertSampleToByteStream replaces 4-byte NALU lengths with start codes.
 // This function is codec agnostic.
 func ConvertSampleToByteStream(sample []byte) []byte {
-	sampleLength := uint32(len(sample))
-	var pos uint32 = 0
-	for pos < sampleLength {
+	length := len(sample)
+	pos := 0
+	for pos <= length-4 { // room for a length field
 		naluLength := binary.BigEndian.Uint32(sample[pos : pos+4])
 		startCode := []byte{0, 0, 0, 1}
 		copy(sample[pos:pos+4], startCode)
-		pos += naluLength + 4
+		pos += 4
+		if int64(naluLength) > int64(length-pos) {
+			break // length field points beyond the end of the sample
+		}
+		pos += int(naluLength)
 	}
 	return sample
 }
